@@ -9,6 +9,10 @@ VK_NOTE = ("trusted: the virtual kernel model (vk/kernel.hpp, vk/ops.hpp; bound 
            "oracle; the programs are the unmodified binaries built from /repo's working tree by its own Makefile")
 DAEMON_NOTE = VK_NOTE + "; spawners are controller scripts on the daemon's pipes (their own code is covered by C09/C11/C18), time is a virtual clock"
 CHECKS = {
+ "C02": dict(engine="VK", category="model_checking", design_ref="4/C02",
+             technique="preemption-bounded exhaustive interleaving of 1-3 real qmail-queue processes with the real qmail-send and qmail-clean (and the daemon's own bounce injections) at system-call granularity under a virtual kernel with lowest-free inode allocation, plus every crash point of every process with restart, failing/hung injections with the clock moved past 24 h and 36 h, a second daemon instance, an aged backlog; state-table invariant after every namespace change",
+             text="The state table is an invariant over all reachable filesystem states of four cooperating programs; every interleaving within the preemption bound and every crash point is executed on the real binaries and the S1-S5 table, the name=inode rule, number uniqueness and the 36-hour rule are evaluated after every step.",
+             note=DAEMON_NOTE),
  "C16": dict(engine="VK", category="model_checking", design_ref="4/C16",
              technique="preemption-bounded exhaustive interleaving of the real qmail-queue and qmail-send/qmail-clean binaries at the trigger/todo system calls under a virtual kernel with a frozen clock (scenarios A/B/C, both POSIX readdir behaviours), fair scheduling with spin/livelock detection, plus timeout monitors on deferred-delivery and TERM histories",
              text="A lost wake-up exists only in particular interleavings of two processes; all interleavings of the injector's publish-then-signal steps with the daemon's re-arm-then-scan steps up to the preemption bound are executed on the real binaries, and at every quiescent point no committed message may be left unnoticed while the clock stands still.",
